@@ -296,6 +296,7 @@ type vf6Output struct {
 	sp        StartPoint
 	final     int64 // last stream offset the source will have produced
 	proxy     *vf6Chan
+	incr      func() usync.WaitChannel // closed once the input's log writer phase has begun
 	mu        sync.Mutex
 	spIds     [][]string
 	setRunIds []string
@@ -367,8 +368,13 @@ func (o *vf6Output) Send(ctx context.Context, reader ChannelReader) error {
 	}
 	o.mu.Unlock()
 
-	// let the writer store everything the source sent, so that the cache
-	// range after the run is a function of the case
+	// let the input reach its log-writer phase and the writer store everything
+	// the source sent, so that the cache after the run is a function of the case
+	// (ending the run earlier leaves the writer unstarted and unclosed)
+	select {
+	case <-o.incr():
+	case <-time.After(5 * time.Second):
+	}
 	deadline := time.Now().Add(5 * time.Second)
 	for time.Now().Before(deadline) {
 		if o.proxy.aofWriterSeen() {
@@ -404,11 +410,11 @@ type vf6Chan struct {
 	aofO  atomic.Int64
 }
 
-func (p *vf6Chan) aofWriterSeen() bool  { return p.aofW.Load() }
-func (p *vf6Chan) aofWriterOff() int64  { return p.aofO.Load() }
-func (p *vf6Chan) rec(f func())         { p.mu.Lock(); f(); p.mu.Unlock() }
-func (p *vf6Chan) RunId() string        { return p.inner.RunId() }
-func (p *vf6Chan) Close() error         { return nil }
+func (p *vf6Chan) aofWriterSeen() bool { return p.aofW.Load() }
+func (p *vf6Chan) aofWriterOff() int64 { return p.aofO.Load() }
+func (p *vf6Chan) rec(f func())        { p.mu.Lock(); f(); p.mu.Unlock() }
+func (p *vf6Chan) RunId() string       { return p.inner.RunId() }
+func (p *vf6Chan) Close() error        { return nil }
 func vf6B(b bool) string {
 	if b {
 		return "1"
@@ -489,6 +495,7 @@ type vf6Case struct {
 	hasRdb  bool
 	rdbLeft int64
 	rdbSize int64
+	tokId   string // history the cached snapshot was taken from (ghost; the cache label may have changed since)
 	hasAof  bool
 	aofL    int64
 	aofR    int64
@@ -507,16 +514,16 @@ func vf6Opt(has bool, v int64) string {
 
 func (c *vf6Case) opLine(tag string) string {
 	s := &c.src
-	return fmt.Sprintf("sync %s %s %s %s %d %s %d %d %d %d %s %d %s %d %s %s %s %s %s %d %d %d %d %s %d %s",
+	return fmt.Sprintf("sync %s %s %s %s %d %s %d %d %d %d %s %d %s %d %s %s %s %s %s %s %d %d %d %d %s %d %s",
 		tag, c.backend, vfutil.HexS(s.id1), vfutil.HexS(s.id2), s.switchOff, vf6B(s.backlog), s.first, s.blen, s.master,
 		s.snapLen, vf6B(s.capaId), s.k, vfutil.HexS(c.sp.RunId), c.sp.Offset, vfutil.HexS(c.cRun),
-		vf6Opt(c.hasRdb, c.rdbLeft), vf6Opt(c.hasRdb, c.rdbSize), vf6Opt(c.hasAof, c.aofL), vf6Opt(c.hasAof, c.aofR),
+		vf6Opt(c.hasRdb, c.rdbLeft), vf6Opt(c.hasRdb, c.rdbSize), vfutil.HexS(c.tokId), vf6Opt(c.hasAof, c.aofL), vf6Opt(c.hasAof, c.aofR),
 		c.sb, c.s1, c.s2, c.so, vf6B(c.fresh), c.logSize, vf6B(s.heartbeat))
 }
 
 func vf6ParseCase(line string) (*vf6Case, error) {
 	f := strings.Fields(line)
-	if len(f) < 27 || f[0] != "sync" {
+	if len(f) < 28 || f[0] != "sync" {
 		return nil, fmt.Errorf("bad case line")
 	}
 	i64 := func(s string) int64 { v, _ := strconv.ParseInt(s, 10, 64); return v }
@@ -529,13 +536,14 @@ func vf6ParseCase(line string) (*vf6Case, error) {
 	if f[16] != "x" && f[17] != "x" {
 		c.hasRdb, c.rdbLeft, c.rdbSize = true, i64(f[16]), i64(f[17])
 	}
-	if f[18] != "x" && f[19] != "x" {
-		c.hasAof, c.aofL, c.aofR = true, i64(f[18]), i64(f[19])
+	c.tokId = string(vfutil.UnHex(f[18]))
+	if f[19] != "x" && f[20] != "x" {
+		c.hasAof, c.aofL, c.aofR = true, i64(f[19]), i64(f[20])
 	}
-	c.sb, c.s1, c.s2, c.so = u64(f[20]), u64(f[21]), u64(f[22]), u64(f[23])
-	c.fresh = f[24] == "1"
-	c.logSize = i64(f[25])
-	c.src.heartbeat = f[26] == "1"
+	c.sb, c.s1, c.s2, c.so = u64(f[21]), u64(f[22]), u64(f[23]), u64(f[24])
+	c.fresh = f[25] == "1"
+	c.logSize = i64(f[26])
+	c.src.heartbeat = f[27] == "1"
 	return c, nil
 }
 
@@ -545,9 +553,54 @@ func (c *vf6Case) world() *vf6World {
 
 // ---------------------------------------------------------------- harness
 
+// vf6Sink buffers everything one case reports, so that a case whose run was
+// aborted by a scheduling race inside the store can be repeated from scratch.
+type vf6Viol struct {
+	what, detail string
+	rp           map[string]interface{}
+}
+type vf6Sink struct {
+	ops     [][]string
+	counts  []string
+	dist    []string
+	viols   []vf6Viol
+	aborted bool
+}
+
+func (b *vf6Sink) Op(op string, lines ...string) {
+	b.ops = append(b.ops, append([]string{op}, lines...))
+}
+func (b *vf6Sink) Count(k string)    { b.counts = append(b.counts, k) }
+func (b *vf6Sink) Distinct(k string) { b.dist = append(b.dist, k) }
+func (b *vf6Sink) Violate(what, detail string, rp map[string]interface{}) {
+	b.viols = append(b.viols, vf6Viol{what, detail, rp})
+}
+func (b *vf6Sink) commit(h *vf6H) {
+	tags := []string{}
+	for _, o := range b.ops {
+		tag := fmt.Sprintf("#%d", h.nOps)
+		h.nOps++
+		tags = append(tags, tag)
+		for i := range o {
+			o[i] = strings.Replace(o[i], "#T", tag, 1)
+		}
+		h.s.Op(o[0], o[1:]...)
+	}
+	for _, k := range b.counts {
+		h.s.Count(k)
+	}
+	for _, k := range b.dist {
+		h.s.Distinct(k)
+	}
+	for _, v := range b.viols {
+		h.s.Violate(v.what, v.detail, v.rp)
+	}
+}
+
 type vf6H struct {
 	t      *testing.T
 	s      *vfutil.Session
+	sink   *vf6Sink
 	ln     *vf6Listener
 	tmp    string
 	nOps   int
@@ -573,7 +626,7 @@ func (h *vf6H) populate(c *vf6Case, ch Channel, w *vf6World) error {
 	}
 	ctx := context.Background()
 	if c.hasRdb {
-		rw, err := ch.NewRdbWriter(bytes.NewReader(w.snapBytes(c.cRun, c.rdbLeft, c.rdbSize)), c.rdbLeft, c.rdbSize)
+		rw, err := ch.NewRdbWriter(bytes.NewReader(w.snapBytes(c.tokId, c.rdbLeft, c.rdbSize)), c.rdbLeft, c.rdbSize)
 		if err != nil {
 			return err
 		}
@@ -616,9 +669,8 @@ func vf6Last(xs []string, def string) string {
 }
 
 func (h *vf6H) round(c *vf6Case, inner Channel, replay map[string]interface{}) *vf6Round {
-	s := h.s
-	tag := fmt.Sprintf("#%d", h.nOps)
-	h.nOps++
+	s := h.sink
+	tag := "#T"
 	op := c.opLine(tag)
 	w := c.world()
 	src := c.src // copy of the parameters
@@ -643,6 +695,7 @@ func (h *vf6H) round(c *vf6Case, inner Channel, replay map[string]interface{}) *
 	ri := NewRedisInput(h.inCfg)
 	ri.SetOutput(out)
 	ri.SetChannel(proxy)
+	out.incr = func() usync.WaitChannel { return ri.StateNotify(SyncStateFullSynced) }
 	t0 := time.Now()
 	runErr := ri.run()
 	if ms := time.Since(t0).Milliseconds(); ms > h.slowMs {
@@ -853,9 +906,9 @@ func (h *vf6H) round(c *vf6Case, inner Channel, replay map[string]interface{}) *
 			// a cached snapshot: only the one the harness stored, of a history
 			// that agrees with the current one below its offset, and only when
 			// the source granted continuation
-			want = w.snapBytes(c.cRun, c.rdbLeft, c.rdbSize)
+			want = w.snapBytes(c.tokId, c.rdbLeft, c.rdbSize)
 			ok := c.hasRdb && out.left == c.rdbLeft && out.size == c.rdbSize &&
-				(c.cRun == src.id1 || (c.cRun == src.id2 && c.rdbLeft <= src.switchOff))
+				(c.tokId == src.id1 || (c.tokId == src.id2 && c.rdbLeft <= src.switchOff))
 			if !ok {
 				s.Violate("cached-snapshot-foreign", "a cached snapshot of another history / position was replayed", rp(""))
 			}
@@ -870,6 +923,7 @@ func (h *vf6H) round(c *vf6Case, inner Channel, replay map[string]interface{}) *
 			s.Violate("snapshot-bytes", fmt.Sprintf("delivered snapshot (%d bytes) is not the complete expected one (%d bytes)", len(out.got), len(want)), rp(""))
 		}
 	default:
+		s.aborted = true
 		s.Violate("run-aborted", fmt.Sprintf("nothing delivered: err=%v writer=%v readerErr=%v", runErr, proxy.wr, proxy.rdErr), rp(""))
 	}
 	if !full && len(psyncs) == 1 {
@@ -924,6 +978,9 @@ func (h *vf6H) round(c *vf6Case, inner Channel, replay map[string]interface{}) *
 	res.after = *c
 	res.after.cRun = arid
 	res.after.hasRdb, res.after.rdbLeft, res.after.rdbSize = al >= 0 && as >= 0, al, as
+	if full || !res.after.hasRdb {
+		res.after.tokId = src.id1 // the snapshot just received (or none)
+	}
 	res.after.hasAof = false
 	if cl >= 0 && cr >= 0 {
 		if res.after.hasRdb {
@@ -1054,6 +1111,7 @@ func vf6GenCase(r *vfutil.Rand) *vf6Case {
 			c.rdbLeft, c.rdbSize = 0, 0
 		}
 	}
+	c.tokId = c.cRun
 	// stored position
 	switch r.Intn(10) {
 	case 0, 1:
@@ -1156,42 +1214,64 @@ func TestVerifC06(t *testing.T) {
 	if err := config.InitSyncerConfig(yp); err != nil {
 		t.Fatal(err)
 	}
-	log.InitLog(config.LogConfig{LevelStr: "panic", Handler: config.LogHandlerConfig{StdOut: true}})
+	log.InitLog(*config.GetSyncerConfig().Log)
 
 	h := &vf6H{t: t, s: s, ln: ln, tmp: tmp, inCfg: *config.GetSyncerConfig().Input.Redis}
 
-	runCase := func(c *vf6Case, srcTag string, rounds int) {
-		h.nCase++
-		dir := filepath.Join(tmp, fmt.Sprintf("c%d", h.nCase))
-		os.MkdirAll(dir, 0o777)
-		w := c.world()
-		ch := h.newChannel(c, dir)
-		if err := h.populate(c, ch, w); err != nil {
+	runCase := func(c0 *vf6Case, srcTag string, rounds int) {
+		// follow-up rounds draw from a per-case generator so that a repeated
+		// attempt replays the same rounds
+		rseed := r.U64()
+		for attempt := 0; ; attempt++ {
+			c := *c0
+			rr := vfutil.NewRand(rseed)
+			h.sink = &vf6Sink{}
+			s := h.sink
+			h.nCase++
+			dir := filepath.Join(tmp, fmt.Sprintf("c%d", h.nCase))
+			os.MkdirAll(dir, 0o777)
+			w := c.world()
+			ch := h.newChannel(&c, dir)
+			if err := h.populate(&c, ch, w); err != nil {
+				ch.Close()
+				os.RemoveAll(dir)
+				h.s.Count("populate_failed")
+				t.Logf("populate failed: %v (%s)", err, c.opLine("-"))
+				return
+			}
+			if c.fresh && c.backend == "d" {
+				ch.Close()
+				ch = h.newChannel(&c, dir)
+				if c.cRun != c.src.id1 && c.cRun != c.src.id2 {
+					// a directory of another id is invisible to the new process
+					c.cRun, c.tokId, c.hasRdb, c.hasAof = "", "", false, false
+				}
+			}
+			s.Count("src_" + srcTag)
+			cur := &c
+			for i := 0; i < rounds; i++ {
+				res := h.round(cur, ch, map[string]interface{}{"round": i})
+				if s.aborted {
+					break
+				}
+				if i+1 < rounds {
+					cur = vf6NextCase(rr, cur, res)
+					s.Count("followup_rounds")
+				}
+			}
 			ch.Close()
 			os.RemoveAll(dir)
-			s.Count("populate_failed")
-			t.Logf("populate failed: %v (%s)", err, c.opLine("-"))
+			if s.aborted && attempt < 3 {
+				// the run ended before anything was delivered (e.g. the store's
+				// snapshot reader lost the race against the writer's rename);
+				// nothing was delivered, so the property is not at stake: repeat
+				// the case; a deterministic abort survives the repeats and is reported
+				h.s.Count("aborted_attempts_repeated")
+				continue
+			}
+			s.commit(h)
 			return
 		}
-		if c.fresh && c.backend == "d" {
-			ch.Close()
-			ch = h.newChannel(c, dir)
-			if c.cRun != c.src.id1 && c.cRun != c.src.id2 {
-				// a directory of another id is invisible to the new process
-				c.cRun, c.hasRdb, c.hasAof = "", false, false
-			}
-		}
-		s.Count("src_" + srcTag)
-		cur := c
-		for i := 0; i < rounds; i++ {
-			res := h.round(cur, ch, map[string]interface{}{"round": i})
-			if i+1 < rounds {
-				cur = vf6NextCase(r, cur, res)
-				s.Count("followup_rounds")
-			}
-		}
-		ch.Close()
-		os.RemoveAll(dir)
 	}
 
 	for _, l := range vfutil.Corpus("C06") {
